@@ -30,6 +30,32 @@ def uid(prefix):
     return "%s!%d" % (prefix, next(_counter))
 
 
+BOUND = set()      # names of constants that are (or will be) bound by a quantifier
+
+
+def bvar(name):
+    c = z3.Int(uid(name))
+    BOUND.add(c.decl().name())
+    return c
+
+
+def mentions_bound(t):
+    seen = set()
+    todo = [t]
+    while todo:
+        x = todo.pop()
+        if x.get_id() in seen:
+            continue
+        seen.add(x.get_id())
+        if z3.is_var(x) or z3.is_quantifier(x):
+            return True
+        if z3.is_app(x):
+            if x.num_args() == 0 and x.decl().name() in BOUND:
+                return True
+            todo.extend(x.children())
+    return False
+
+
 def is_z3(v):
     return isinstance(v, z3.ExprRef)
 
@@ -402,11 +428,11 @@ def drain_nonneg():
     out = []
     while WF_SINK:
         hasf, sizef, depth, kd = WF_SINK.pop()
-        xs = [z3.Int(uid("x")) for _ in range(depth + kd)]
+        xs = [bvar("x") for _ in range(depth + kd)]
         out.append(z3.ForAll(xs, z3.Implies(hasf(*xs), sizef(*xs[:depth]) >= 1), patterns=[hasf(*xs)]))
     while NONNEG_SINK:
         f, ar = NONNEG_SINK.pop()
-        xs = [z3.Int(uid("x")) for _ in range(ar)]
+        xs = [bvar("x") for _ in range(ar)]
         if ar == 0:
             out.append(f() >= 0)
         else:
